@@ -72,7 +72,7 @@ def cases(draw):
     saved = False
     for _ in range(nops):
         k = draw(st.sampled_from(["int", "int", "int", "real", "real", "exp", "norm", "save", "restore", "raw"]))
-        n = draw(st.sampled_from([1, 2, 3, 10, 40]))
+        n = draw(st.sampled_from([1, 2, 3, 3, 10, 10, 40, 40, 40, 700]))        # 700: the engine regenerates its state (624 words) on the way
         if k == "int":
             mn, mx = draw(int_bounds())
             ops.append(["int", mn, mx, n])
@@ -124,7 +124,7 @@ def hexval(h):
 class C45(core.Prop):
     id = "C45"
     drivers = ["random_driver"]
-    sizes = {"quick": 6000, "thorough": 200000}
+    sizes = {"quick": 5000, "thorough": 200000}
     max_workers = 14
     technique = ("property-based testing (Hypothesis): an independent MT19937 + the documented rejection scheme (Python) must reproduce "
                  "every draw of simgrid::xbt::random exactly, with engine states crafted to sit on the rejection boundaries")
@@ -145,7 +145,7 @@ class C45(core.Prop):
                    "Python re-implementation through the raw outputs); the textual state format (624 words + position) is libstdc++'s",
                    "exponential/normal go through libm's log/sqrt/cos: compared with a 1e-12 relative tolerance, not bit for bit",
                    "'for all 32-bit ranges' is sampled (all 2^k and 2^k+-1, 2^32/k neighbourhoods, random), not proved"]
-    ready = False
+    ready = True
 
     def strategy(self, tier):
         return cases()
